@@ -89,7 +89,7 @@ func dangerous(name string) bool {
 func RunArity(ctx *common.Ctx) {
 	rows, err := arity.Extract(common.RepoDir())
 	if err != nil {
-		ctx.Violate("translator failed to parse /repo", nil, err.Error(), nil)
+		panic("c04 translator: cannot parse the repository: " + err.Error())
 		return
 	}
 	known := map[string]bool{}
